@@ -184,18 +184,24 @@ def curve_params(c, g="G1"):
 
 
 PROPS["C02"] = dict(
-    jobs=[Job("ecc/" + c, ["C02/points.go.tmpl", "C02/g1.go.tmpl"], params=curve_params(c)) for c in CURVES],
+    jobs=[Job("ecc/" + c, ["C02/points.go.tmpl", "C02/g1.go.tmpl"], params=curve_params(c)) for c in CURVES] +
+         [Job(pkg, ["C02/edwards_ext.go.tmpl"], params=dict(FrPath="github.com/consensys/gnark-crypto/ecc/%s/fr" % pkg.split("/")[1], FrSuffix=pkg.split("/")[1] + "/fr"))
+          for pkg in ["ecc/bn254/twistededwards", "ecc/bls12-377/twistededwards", "ecc/bls12-381/twistededwards", "ecc/bls12-381/bandersnatch",
+                      "ecc/bls24-315/twistededwards", "ecc/bls24-317/twistededwards", "ecc/bw6-633/twistededwards", "ecc/bw6-761/twistededwards"]],
     level_text="Proof (no size bound: coordinates are arbitrary field elements) that G1 point arithmetic of the 10 short-Weierstrass "
                "curves implements the chord-and-tangent law in affine, Jacobian and extended-Jacobian coordinates: Add/Sub/Double/Neg, "
                "mixed variants, the bucket operations add/addMixed/subMixed/double/doubleMixed/doubleNegMixed, conversions, Equal, "
                "IsInfinity and IsOnCurve, for every stratum of operand pairs (either operand infinite, equal points given by different "
-               "representatives, opposite points, 2-torsion, generic) and arbitrary projective scalings.",
+               "representatives, opposite points, 2-torsion, generic) and arbitrary projective scalings; BatchJacobianToAffine with "
+               "infinity at any position; twisted Edwards extended coordinates: independence of the representative in the doubling "
+               "branch of MixedAdd.",
     level_note="Base-field elements are interpreted as reals: a rational identity with integer coefficients valid over Q is valid in "
                "every field where its denominators are units; non-vanishing conclusions (Z3 != 0) are transferred to F_p by assumption. "
                "The curve equation is used only to argue that the strata are exhaustive. Counterexamples are replayed natively on "
                "genuine curve points close to the model.",
-    bounds="none on coordinates; G1 only",
-    outside="G2 (E2/E4 coordinates), twisted Edwards curves, subgroup membership tests, batch conversions: not yet covered",
+    bounds="none on coordinates; G1 only; batch conversion of 3 points",
+    outside="G2 (E2/E4 coordinates), twisted Edwards group law (only: MixedAdd on equal points agrees with Double for every representative, "
+            "MixedDouble = Double on normalised points, 8 packages), subgroup membership tests, batch scalar multiplication",
     assumptions=["real-closed-field surrogate for F_p (identities exact, inequations assumed to transfer)", "finite points are not (0,0)"],
 )
 
@@ -448,13 +454,16 @@ def kzg_params(c):
 
 
 PROPS["C11"] = dict(
-    jobs=[Job("ecc/%s/kzg" % c, ["C11/kzg.go.tmpl"], params=kzg_params(c), jobs=8, goarch="arm64") for c in PAIRING_CURVES],
+    jobs=[Job("ecc/%s/kzg" % c, ["C11/kzg.go.tmpl"], params=kzg_params(c), jobs=8, goarch="arm64") for c in PAIRING_CURVES] +
+         [Job("ecc/%s/kzg" % c, ["C11/gamma.go.tmpl"], params=dict(kzg_params(c), FpPath="github.com/consensys/gnark-crypto/ecc/%s/fp" % c, FpSuffix=c + "/fp"),
+              jobs=2, goarch="arm64", label="ecc/%s/kzg:gamma" % c) for c in PAIRING_CURVES],
     level_text="Proof (all scalars; polynomial lengths 1..4, batch sizes 1..3) for KZG on the 7 pairing curves: Verify accepts a tuple "
                "([c]G1, [h]G1, v, z) exactly when c - v = (tau - z) h; BatchVerifySinglePoint accepts exactly when "
                "sum gamma^i (c_i - v_i) = (tau - z) h; BatchVerifyMultiPoints accepts every batch of true claims, decides a batch of one "
                "exactly and reports size mismatches; Commit/Open succeed on every polynomial that fits the SRS (including constants), "
                "leave it unmodified, return p(z) as claimed value, and the resulting proof verifies; honest batched openings with mixed "
-               "polynomial sizes verify; size errors are reported.",
+               "polynomial sizes verify; size errors are reported; the Fiat-Shamir challenge of the batched protocol absorbs, in order, the label, "
+               "the point, every digest, every claimed value and the caller's transcript data (byte stream fed to the hash, exact).",
     level_note="The pairing group is abstract: a G1 element is its discrete logarithm (interpretation cyc1), scalars are reals; the "
                "fixed-argument pairing product check against (G2, [tau]G2) is the test log(P0) + tau*log(P1) = 0 (bilinearity and "
                "non-degeneracy are C05's subject); scalar multiplications and multi-exponentiations are their specifications (C03, "
